@@ -16,6 +16,14 @@ class Node:
         for k in self.kids: s |= k.features()
         return s
     def size(self): return 1 + sum(k.size() for k in self.kids)
+    def decls(self, seen=None):
+        """source lines of the declarations this type needs, dependencies first"""
+        seen = set() if seen is None else seen; out = []
+        for k in self.kids: out += k.decls(seen)
+        d = getattr(self, "decl", None)
+        if d and id(self) not in seen:
+            seen.add(id(self)); out += d + [""]
+        return out
 
 class Pool:
     """accumulates the Python source of the generated classes"""
@@ -68,8 +76,9 @@ class Gen:
     def g_enum(self, d):
         n = self.pool.fresh("E")
         members = self.rnd.sample([("X", "x"), ("Y", 1), ("Z", "zz"), ("W", 2)], self.rnd.randint(1, 3))
-        self.pool.add([f"class {n}(Enum):"] + [f"    {m} = {v!r}" for m, v in members])
-        return Node("enum", ["enum", n, [[m, lit_proto(v)] for m, v in members]], n, vals=[v for _, v in members])
+        decl = [f"class {n}(Enum):"] + [f"    {m} = {v!r}" for m, v in members]
+        self.pool.add(decl)
+        return Node("enum", ["enum", n, [[m, lit_proto(v)] for m, v in members]], n, vals=[v for _, v in members], decl=decl)
     def _cons(self, kind, base_lean, base_py, choices):
         name, val, proto = self.rnd.choice(choices)
         c = {name: proto}
@@ -128,8 +137,9 @@ class Gen:
         t = self.ty(d - 1)
         while t.kind == "none": t = self.ty(d - 1)      # NewType of None: finding 31, kept in the corpus only
         n = self.pool.fresh("NT_")
-        self.pool.add([f"{n} = NewType('{n}', {t.py})"])
-        return Node("newtype", ["newtype", n, t.lean], n, [t])
+        decl = [f"{n} = NewType('{n}', {t.py})"]
+        self.pool.add(decl)
+        return Node("newtype", ["newtype", n, t.lean], n, [t], decl=decl)
     # --- objects
     def _fields(self, d, kind):
         fs = []
@@ -160,10 +170,10 @@ class Gen:
             fs.append(f)
         fs.sort(key=lambda f: not f["required"])      # defaults last (class syntax)
         return fs
-    def _obj_node(self, kind, name, fs, raw=True):
+    def _obj_node(self, kind, name, fs, raw=True, decl=None):
         lean = ["obj", {"name": name, "kind": kind, "raw": raw},
                 [[f["name"], f["alias"], f["required"], f["fbod"], f["ty"].lean, f["dflt"]] for f in fs]]
-        return Node(kind, lean, name, [f["ty"] for f in fs], fields=fs)
+        return Node(kind, lean, name, [f["ty"] for f in fs], fields=fs, decl=decl)
     def g_dataclass(self, d):
         n = self.pool.fresh("C"); fs = self._fields(d, "dataclass")
         lines = ["@dataclass", f"class {n}:"]
@@ -182,13 +192,13 @@ class Gen:
             lines.append(f"    {f['name']}: {f['ty'].py}{rhs}")
         if not fs: lines.append("    pass")
         self.pool.add(lines)
-        return self._obj_node("dataclass", n, fs)
+        return self._obj_node("dataclass", n, fs, decl=lines)
     def g_namedtuple(self, d):
         n = self.pool.fresh("N"); fs = self._fields(d, "namedtuple")
         lines = [f"class {n}(NamedTuple):"] + [f"    {f['name']}: {f['ty'].py}" + ("" if f["required"] else f" = {f['dflt_src']}") for f in fs]
         if not fs: return self.g_dataclass(d)
         self.pool.add(lines)
-        return self._obj_node("namedtuple", n, fs, raw=False)
+        return self._obj_node("namedtuple", n, fs, raw=False, decl=lines)
     def g_typeddict(self, d):
         n = self.pool.fresh("T"); fs = self._fields(d, "typeddict")
         total = self.rnd.random() < 0.5
@@ -196,7 +206,7 @@ class Gen:
         lines = [f"class {n}(TypedDict, total={total}):"] + [f"    {f['name']}: {f['ty'].py}" for f in fs]
         if not fs: lines.append("    pass")
         self.pool.add(lines)
-        return self._obj_node("typeddict", n, fs, raw=False)
+        return self._obj_node("typeddict", n, fs, raw=False, decl=lines)
 
     # ---------------- data
     ATOMS = [None, True, False, 0, 1, -1, 2, 11, 2**53 + 1, 0.5, 1.0, float("nan"), "", "a", "ab", "zz", [], {}, [1], {"a": 1}, ["a", "a"], [[1]], {"k": None}]
